@@ -1,4 +1,5 @@
 import Just.Lemmas.Syntax
+import Just.Lemmas.SyntaxWF
 set_option linter.unusedSimpArgs false
 /-
 C10  Formatting preserves meaning and is idempotent.
@@ -231,6 +232,20 @@ theorem parse_print_in_context (e : Expr) (hw : WF e) (rest : List Tk) (hrest : 
     parseExpression (4 * e.size + 3) (printE e ++ rest) = some (e, rest) := by
   have := roundtrip e hw 3 (level_le3 e) (Nat.le_refl _) (4 * e.size + 3) rest (Nat.le_refl _) hrest
   simpa [parseAt] using this
+
+/-- **Everything the parser returns is well-formed**, for any tokens and any fuel: so the round trip
+applies to every expression that can come out of a justfile. -/
+theorem parsed_is_wellformed (f : Nat) (ts : List Tk) (e : Expr) (rest : List Tk)
+    (h : parseExpression f ts = some (e, rest)) : WF e :=
+  (parserWF f).expression ts e rest h
+
+/-- **Formatting is a projection.**  Whatever token sequence the user wrote: if it parses to `e`, then the
+formatted text parses to the same `e` — and formatting that again prints the same tokens. -/
+theorem format_of_any_source (f : Nat) (ts : List Tk) (e : Expr) (rest : List Tk)
+    (h : parseExpression f ts = some (e, rest)) :
+    parseExpression (4 * e.size + 3) (printE e) = some (e, [])
+    ∧ (parseExpression (4 * e.size + 3) (printE e)).map (fun r => printE r.1) = some (printE e) :=
+  ⟨parse_print e (parsed_is_wellformed f ts e rest h), format_idempotent e (parsed_is_wellformed f ts e rest h)⟩
 
 /-- non-vacuity: `if a == (b + 'c') { f(x, y) / z } else if … { … } else { / w && v || u }` is well-formed -/
 example : WF (.cond (.var "a") .eq (.group (.concat (.var "b") (.str "'c'")))
